@@ -41,7 +41,7 @@ _REPO = os.environ.get('VERIF_REPO', '/repo')
 EXTRA_FLAGS = ['-DC06_SCAN_PATH="%s"' % os.path.join(_REPO, 'test/data/scan2d.txt')]
 PROOF_MODULES = ['RomeaProofs.Properties.C06', 'RomeaProofs.Bridge.C06', 'RomeaProofs.Bridge.C06Cor']
 HANG_SECS = 60
-TRUSTED = ['tools/cxx2lean_state.py translates the RansacIterations constructor / update / get (with EPSILON) from the working tree into '
+TRUSTED = ['tools/cxx2lean.py translates the RansacIterations constructor / update / get (with EPSILON) from the working tree into '
            'RomeaModel/Generated/SrcC06.lean on every run; RomeaProofs/Bridge/C06*.lean prove them equal to the model\'s Iterations '
            '(under: integer -> scalar conversion agrees for naturals, truncated quotient non-negative) and restate the bound theorems; '
            'Ransac::estimateModel is NOT translated',
